@@ -102,15 +102,20 @@ func FlagString(f int) string {
 
 // Out is the normalised result of a call.
 type Out struct {
-	Err string `json:"err"`
-	Val string `json:"val,omitempty"`
+	Err  string `json:"err"`
+	Val  string `json:"val,omitempty"`
+	Note string `json:"note,omitempty"` // not compared
 }
 
 func (o Out) String() string {
-	if o.Val == "" {
-		return o.Err
+	s := o.Err
+	if o.Val != "" {
+		s += " " + o.Val
 	}
-	return o.Err + " " + o.Val
+	if o.Note != "" {
+		s += " (" + o.Note + ")"
+	}
+	return s
 }
 
 // Runner executes ops against one file system and keeps its handle table.
@@ -121,6 +126,20 @@ type Runner struct {
 	// produced on this side (normalised away, DESIGN.md 2).
 	lastTemp string
 	NoOwner  bool // owners are not rendered in FileInfo values
+	// partial marks handles on which a partial directory read (n > 0) was
+	// issued: which entries remain depends on the unspecified directory order,
+	// so later reads on that handle are compared by count only.
+	partial map[int]bool
+}
+
+func (r *Runner) markPartial(h int, yes bool) {
+	if !yes {
+		return
+	}
+	if r.partial == nil {
+		r.partial = map[int]bool{}
+	}
+	r.partial[h] = true
 }
 
 // LastTemp is the name the last successful temp call produced on this side.
@@ -227,7 +246,8 @@ var ErrSentinel = fmt.Errorf("verif sentinel")
 func (r *Runner) Do(o Op) (out Out) {
 	defer func() {
 		if p := recover(); p != nil {
-			out = Out{Err: "PANIC", Val: fmt.Sprint(p)}
+			// the panic text is kept for the report but is not part of the comparison
+			out = Out{Err: "PANIC", Note: fmt.Sprint(p)}
 		}
 	}()
 	f := r.FS
@@ -251,6 +271,7 @@ func (r *Runner) Do(o Op) (out Out) {
 	case "Open":
 		fh, err := f.OpenFile(o.P, o.Flag, perm)
 		r.Handles[o.H] = fh
+		delete(r.partial, o.H)
 		return e(err)
 	case "Create":
 		fh, err := f.OpenFile(o.P, os.O_RDWR|os.O_CREATE|os.O_TRUNC, 0o666)
@@ -428,13 +449,67 @@ func (r *Runner) Do(o Op) (out Out) {
 	case "FName":
 		return Out{Err: "ok", Val: h.Name()}
 	case "FReadDir":
+		// directory order is unspecified in package os: for a partial read only
+		// the batch size and the error are comparable (DESIGN.md C02)
 		ents, err := h.ReadDir(o.N)
+		if o.N > 0 || r.partial[o.H] {
+			r.markPartial(o.H, o.N > 0)
+			return Out{Err: ErrKind(err), Val: fmt.Sprintf("len=%d", len(ents))}
+		}
 		sort.Slice(ents, func(i, j int) bool { return ents[i].Name() < ents[j].Name() })
 		return Out{Err: ErrKind(err), Val: entriesString(ents)}
 	case "FReaddirnames":
 		names, err := h.Readdirnames(o.N)
+		if o.N > 0 || r.partial[o.H] {
+			r.markPartial(o.H, o.N > 0)
+			return Out{Err: ErrKind(err), Val: fmt.Sprintf("len=%d", len(names))}
+		}
 		sort.Strings(names)
 		return Out{Err: ErrKind(err), Val: fmt.Sprintf("%q", names)}
+	case "FReadDirAll", "FReaddirnamesAll":
+		// protocol check: batches of at most N until io.EOF, every entry exactly once
+		seen := map[string]int{}
+		var all []string
+		for i := 0; ; i++ {
+			var names []string
+			var err error
+			if o.K == "FReadDirAll" {
+				var ents []fs.DirEntry
+				ents, err = h.ReadDir(o.N)
+				for _, e := range ents {
+					names = append(names, e.Name()+":"+TypeLetter(e.Type()))
+				}
+			} else {
+				names, err = h.Readdirnames(o.N)
+			}
+			if len(names) > o.N {
+				return Out{Err: "protocol", Val: fmt.Sprintf("batch of %d > n=%d", len(names), o.N)}
+			}
+			for _, n := range names {
+				seen[n]++
+				if seen[n] > 1 {
+					return Out{Err: "protocol", Val: "entry delivered twice: " + n}
+				}
+				all = append(all, n)
+			}
+			if err != nil {
+				if err == io.EOF && len(names) == 0 {
+					break
+				}
+				return Out{Err: ErrKind(err), Val: fmt.Sprintf("after %d entries", len(all))}
+			}
+			if len(names) == 0 {
+				return Out{Err: "protocol", Val: "empty batch without error"}
+			}
+			if i > 1000 {
+				return Out{Err: "protocol", Val: "no EOF"}
+			}
+		}
+		sort.Strings(all)
+		if r.partial[o.H] {
+			return Out{Err: "EOF", Val: fmt.Sprintf("len=%d", len(all))}
+		}
+		return Out{Err: "EOF", Val: fmt.Sprintf("%q", all)}
 	case "FReadAll":
 		b, err := io.ReadAll(h)
 		return ev(err, fmt.Sprintf("%q", b))
